@@ -33,7 +33,8 @@ TWO_PI = 2 * np.pi
 RTOL = 1e-12   # probes: identities hold to a few ulps; every realistic defect is >= 1e-6
 RULE = ('scales: DEFAULT/ATMOSPHERIC and random scales (1-7 base dimensions, magnitudes 1e-3..1e8, each '
         'given in a random unit of its dimension); quantities: compound units of 0-4 of 35 multiplicative '
-        'pint units with exponents -3..3, magnitudes +-1e-12..1e12, python floats/ints, numpy and jax arrays; '
+        'pint units with exponents -3..3, magnitudes +-1e-12..1e12, python floats/ints, numpy and jax arrays (jax arrays only '
+        'where no integer conversion factor of pint reaches 2^63, which jax rejects with OverflowError); '
         'malformed stream: compound / squared / dimensionless / duplicate scales and quantities with an '
         'uncovered dimension; durations: every whole second 0..1e5 (quick) / stratified to 1e9 (thorough) '
         'under the default and random time scales, scalar and array path; datetimes: every minute of a '
@@ -206,6 +207,7 @@ def run(ctx: common.Ctx):
 
   # ------------------------------------------------------------------ correspondence: scales
   ncases = ctx.n(150, 2000)
+  jax_overflow = []
   for ci in range(ncases):
     scale, skind = random_scale({0: 'default', 1: 'atmospheric', 2: 'partial'}.get(ci))
     sv = scale_vals(scale)
@@ -235,6 +237,18 @@ def run(ctx: common.Ctx):
     ctx.dist[f'factor={"error" if f_impl == "value-error" else "ok"}'] += 1
     add(f'units F factor {st} {ivec(d_unit)}', 'Scale._scaling_factor', inp0, f_impl, 'scalar')
     mag, mkind = random_mag()
+    if mkind == 'jnp':
+      # pint keeps conversion factors of integer-defined units as exact Python integers; multiplying a jax array
+      # by an integer >= 2^63 raises OverflowError inside jax (loud, not a conversion result): outside the domain
+      try:
+        scale.nondimensionalize(mag * unit)
+        scale.dimensionalize(mag, unit)
+      except OverflowError:
+        jax_overflow.append(str(unit))
+        ctx.dist['excluded: jax array x pint integer factor >= 2^63 (OverflowError raised by jax), numpy used instead'] += 1
+        mag, mkind = np.asarray(mag), 'np1'
+      except Exception:  # pylint: disable=broad-except
+        pass               # reported below by `guarded`
     ctx.dist[f'mag={mkind}'] += 1
     flat = np.asarray(mag, dtype=float).ravel()
     inp = dict(inp0, magnitude=flat.tolist(), magkind=str(mkind))
@@ -257,7 +271,7 @@ def run(ctx: common.Ctx):
     # ---------------- probes of the property on the real code (T18.1 / T18.2)
     if nd_impl is None or dm_impl is None or isinstance(nd_impl, str) or isinstance(dm_impl, str):
       continue
-    with ctx.impl('scale-probe-exception', inp):
+    def probes(mag, nd):
       back = scale.dimensionalize(nd, unit)
       ctx.expect(close(back.m, mag), 'scale-roundtrip', 'dimensionalize(nondimensionalize(q)) != q', inp)
       ctx.expect(close(scale.nondimensionalize(dm), mag), 'scale-roundtrip-inverse',
@@ -298,6 +312,22 @@ def run(ctx: common.Ctx):
         ctx.expect(close(fab, fa * fb, 1e-11), 'factor-homomorphism', 'factor(d1+d2) != factor(d1)*factor(d2)', i3)
       except ValueError as e:
         ctx.fail('factor-homomorphism', f'factor raised on covered dimensions: {e}', i3)
+
+    with ctx.impl('scale-probe-exception', inp):
+      try:
+        probes(mag, nd)
+      except OverflowError:
+        if mkind != 'jnp':
+          raise
+        # excluded domain (see the note below): repeat the probes on the same values held by numpy
+        jax_overflow.append(str(unit))
+        ctx.dist['excluded: jax array x pint integer factor >= 2^63 (OverflowError raised by jax), numpy used instead'] += 1
+        probes(np.asarray(mag), np.asarray(nd))
+
+  if jax_overflow:
+    ctx.notes.append(f'excluded domain: {len(jax_overflow)} quantities held in a jax array whose (compound) unit has an '
+                     f'integer conversion factor >= 2^63 in pint (e.g. {jax_overflow[0]}): jax raises OverflowError on '
+                     'array * int inside pint; the same values held by numpy convert correctly and were used instead')
 
   # ------------------------------------------------------------------ Scale.__init__ validation stream
   nval = ctx.n(60, 600)
